@@ -1095,7 +1095,178 @@ def _n67(fn):
             blk.append(ast.Pass())
 
 
+def _n68(fn):
+    """N68 `yield from [E for T in XS if C]` (list or generator, one or more `for`s, pure element and conditions) -> the loop
+    `for T in XS: if C: yield E`: a generator that first collects what it is going to yield and one that yields as it goes produce
+    the same sequence when computing an element has no effect"""
+    from .normalize import _PURE_CALLS
+
+    def pure(e):
+        for c in ast.walk(e):
+            if isinstance(c, (ast.Yield, ast.YieldFrom, ast.Await, ast.NamedExpr, ast.Lambda)):
+                return False
+            if isinstance(c, ast.Call) and not (isinstance(c.func, ast.Name) and c.func.id in _PURE_CALLS | {'enumerate', 'zip', 'range', 'reversed'}):
+                return False
+        return True
+    changed = False
+    for holder, fld, blk in list(_blocks(fn)):
+        i = 0
+        while i < len(blk):
+            st = blk[i]
+            if isinstance(st, ast.Expr) and isinstance(st.value, ast.YieldFrom) and isinstance(st.value.value, (ast.ListComp, ast.GeneratorExp)):
+                comp = st.value.value
+                if pure(comp.elt) and all(pure(c) for g in comp.generators for c in g.ifs) and not any(g.is_async for g in comp.generators) \
+                        and all(pure(g.iter) for g in comp.generators[1:]):
+                    inner = [ast.Expr(ast.Yield(comp.elt))]
+                    for g in reversed(comp.generators):
+                        for c in reversed(g.ifs):
+                            inner = [ast.If(c, inner, [])]
+                        inner = [ast.For(g.target, g.iter, inner, [], None)]
+                    for x in inner:
+                        ast.copy_location(x, st)
+                        ast.fix_missing_locations(x)
+                    blk[i:i + 1] = inner
+                    changed = True
+            i += 1
+    return changed
+
+
+def late_rewrites(tree: ast.Module) -> bool:
+    """rewrites whose instances only appear after the statement-level folding of the second pass"""
+    changed = False
+    for fn in [n for n in ast.walk(tree) if isinstance(n, (ast.FunctionDef, ast.AsyncFunctionDef))]:
+        changed |= bool(_n68(fn))
+    return changed
+
+
+def _n70(fn, counter):
+    """N70 an element taken out of a fresh list of *distinct* names, which is then only read:
+           L = <parameter names of a signature>[a:b] | list(..)      t = C in L      if t: L.remove(C)      .. L read ..
+       -> the `if` goes and every later read of L becomes `[x for x in L if x != C]` (the parameter names of one signature are
+       distinct, so removing the first C is removing every C; where C is absent both leave L alone).
+       N69 (with it) `list(E)` of such a fresh list is E"""
+    class Unlist(ast.NodeTransformer):
+        def visit_Call(self, n):
+            self.generic_visit(n)
+            if isinstance(n.func, ast.Name) and n.func.id == 'list' and len(n.args) == 1 and not n.keywords and _fresh_names(n.args[0]):
+                return n.args[0]
+            return n
+
+    def _fresh_names(e):
+        t = ast.unparse(e)
+        return isinstance(e, ast.Subscript) and isinstance(e.slice, ast.Slice) and 'getfullargspec(' in t and t.rsplit('[', 1)[0].endswith('.args')
+    for st in _own_nodes(fn):
+        if isinstance(st, ast.stmt) and not isinstance(st, (ast.FunctionDef, ast.ClassDef)):
+            for name, value in list(ast.iter_fields(st)):
+                if isinstance(value, ast.expr):
+                    setattr(st, name, Unlist().visit(value))
+    order = {id(x): k for k, x in enumerate(_dfs_nodes(fn))}
+    for holder, fld, blk in list(_blocks(fn)):
+        for i, st in enumerate(blk):
+            if not (isinstance(st, ast.If) and not st.orelse and len(st.body) == 1 and isinstance(st.body[0], ast.Expr)):
+                continue
+            c = st.body[0].value
+            if not (isinstance(c, ast.Call) and isinstance(c.func, ast.Attribute) and c.func.attr == 'remove' and isinstance(c.func.value, ast.Name)
+                    and len(c.args) == 1 and isinstance(c.args[0], ast.Constant) and not c.keywords):
+                continue
+            L, C = c.func.value.id, c.args[0]
+            test = st.test
+            if isinstance(test, ast.Name):
+                defs = [d for d in blk[:i] if isinstance(d, ast.Assign) and len(d.targets) == 1 and isinstance(d.targets[0], ast.Name)
+                        and d.targets[0].id == test.id]
+                stores = [n for n in ast.walk(fn) if isinstance(n, ast.Name) and n.id == test.id and not isinstance(n.ctx, ast.Load)]
+                if len(defs) != 1 or len(stores) != 1:
+                    continue
+                test = defs[0].value
+            if not (isinstance(test, ast.Compare) and len(test.ops) == 1 and isinstance(test.ops[0], ast.In)
+                    and ast.dump(test.left) == ast.dump(C) and isinstance(test.comparators[0], ast.Name) and test.comparators[0].id == L):
+                continue
+            ldefs = [d for d in blk[:i] if isinstance(d, ast.Assign) and len(d.targets) == 1 and isinstance(d.targets[0], ast.Name)
+                     and d.targets[0].id == L]
+            lstores = [n for n in ast.walk(fn) if isinstance(n, ast.Name) and n.id == L and not isinstance(n.ctx, ast.Load)]
+            if len(ldefs) != 1 or len(lstores) != 1 or not _fresh_names(ldefs[0].value):
+                continue
+            # L is otherwise only read
+            par = {}
+            for x in ast.walk(fn):
+                for ch in ast.iter_child_nodes(x):
+                    par[id(ch)] = x
+            ok = True
+            later = []
+            for n in ast.walk(fn):
+                if isinstance(n, ast.Name) and n.id == L and isinstance(n.ctx, ast.Load):
+                    if any(n is y for y in ast.walk(st)):
+                        continue
+                    p_ = par.get(id(n))
+                    if isinstance(p_, ast.Attribute) and p_.attr in _LIST_MUTATORS:
+                        ok = False
+                    if isinstance(p_, ast.Subscript) and isinstance(p_.ctx, (ast.Store, ast.Del)):
+                        ok = False
+                    if isinstance(p_, ast.Call) and n in p_.args and not (isinstance(p_.func, ast.Name) and p_.func.id in ('len', 'list', 'tuple', 'set', 'sorted', 'enumerate', 'zip')):
+                        ok = False
+                    if order.get(id(n), 0) > order.get(id(st), 0):
+                        later.append(n)
+            if not ok:
+                continue
+            counter[0] += 1
+            xv = '_x%d' % counter[0]
+            for n in later:
+                p_ = par.get(id(n))
+                if isinstance(p_, ast.comprehension) and p_.iter is n and isinstance(p_.target, ast.Name):
+                    p_.ifs.insert(0, ast.copy_location(ast.Compare(ast.Name(p_.target.id, ast.Load()), [ast.NotEq()], [C]), n))
+                    ast.fix_missing_locations(p_.ifs[0])
+                    continue
+                if isinstance(p_, ast.For) and p_.iter is n and isinstance(p_.target, ast.Name) and not p_.orelse:
+                    wrapped = ast.If(ast.Compare(ast.Name(p_.target.id, ast.Load()), [ast.NotEq()], [C]), p_.body, [])
+                    ast.copy_location(wrapped, p_.body[0])
+                    ast.fix_missing_locations(wrapped)
+                    p_.body = [wrapped]
+                    continue
+                comp = ast.ListComp(ast.Name(xv, ast.Load()), [ast.comprehension(
+                    ast.Name(xv, ast.Store()), ast.Name(L, ast.Load()), [ast.Compare(ast.Name(xv, ast.Load()), [ast.NotEq()], [C])], 0)])
+                ast.copy_location(comp, n)
+                ast.fix_missing_locations(comp)
+                _Subst(lambda y, n=n: y is n, lambda y, comp=comp: comp).visit(fn)
+            blk.remove(st)
+            if not blk:
+                blk.append(ast.copy_location(ast.Pass(), st))
+            return True
+    return False
+
+
+_LIST_MUTATORS = {'append', 'extend', 'insert', 'remove', 'pop', 'clear', 'sort', 'reverse'}
+
+
+def _dfs_nodes(fn):
+    out = []
+
+    def rec(n):
+        out.append(n)
+        for c in ast.iter_child_nodes(n):
+            rec(c)
+    rec(fn)
+    return out
+
+
+def _n71(tree):
+    """N71 iterating a snapshot of a pure generator is iterating the generator: `for T in list(class_subobjects(X))` (loop or
+    comprehension) -> `for T in class_subobjects(X)`.  class_subobjects only inspects a signature: collecting its triples first and
+    producing them one by one cannot be told apart by the loop body"""
+    def strip(e):
+        if isinstance(e, ast.Call) and isinstance(e.func, ast.Name) and e.func.id in ('list', 'tuple') and len(e.args) == 1 and not e.keywords:
+            a = e.args[0]
+            if isinstance(a, ast.Call) and ((isinstance(a.func, ast.Name) and a.func.id == 'class_subobjects')
+                                            or (isinstance(a.func, ast.Attribute) and a.func.attr == 'class_subobjects')):
+                return a
+        return e
+    for n in ast.walk(tree):
+        if isinstance(n, (ast.For, ast.comprehension)):
+            n.iter = strip(n.iter)
+    return tree
+
+
 def pre_normalize(tree: ast.Module) -> ast.Module:
+    tree = _n71(tree)
     tree = _n39(tree)
     tree = _n47(tree)
     tree = _n65(tree)
@@ -1108,6 +1279,8 @@ def pre_normalize(tree: ast.Module) -> ast.Module:
                 _n62(fn, isinstance(holder, ast.ClassDef) and not any(isinstance(d, ast.Name) and d.id == 'staticmethod' for d in fn.decorator_list),
                      counter)
     for fn in [n for n in ast.walk(tree) if isinstance(n, (ast.FunctionDef, ast.AsyncFunctionDef))]:
+        _n68(fn)
+        _n70(fn, counter)
         _n64(fn)
         _n63(fn)
         _n67(fn)
